@@ -39,7 +39,7 @@ META = {
 
 NAMES = ['A', 'B', 'C']
 POL = {'c': True, 'r': False, 'n': 'null', 'k': None}
-ORDERS = [None, ['a0'], ['d0'], ['a0', 'a1'], ['d1', 'a0'], ['a1', 'd0'], ['a1']]
+ORDERS = [None, ['a0'], ['d0'], ['a0', 'a1'], ['d1', 'a0'], ['a1', 'd0'], ['a1'], ['d0', 'a1'], ['d0', 'd1'], ['d1', 'a0', 'a1'], ['a0', 'd1', 'a0']]
 K_DOSORT = 'C13:doSort-multikey-priority-reversed'
 
 _built = {}
@@ -129,7 +129,7 @@ def gen_schema(rng):
         k2 = rng.randrange(n) if rng.random() < 0.65 else k1
         default_names = (k1 != k2) and (frozenset((k1, k2)) not in pairs) and rng.random() < 0.5
         pairs.add(frozenset((k1, k2)))
-        sides = 'both' if k1 == k2 else rng.choice(['both', 'both', 'both', 'first'])
+        sides = rng.choice(['both', 'both', 'first']) if k1 == k2 else rng.choice(['both', 'both', 'first', 'first'])
         if default_names:
             sides = 'both'
             # default column order: the creating side's (joinColumn, otherColumn); col 0 belongs to k1
@@ -144,7 +144,8 @@ def gen_schema(rng):
 def gen_history(rng, schema, length):
     n = len(schema['classes'])
     live = {k: [] for k in range(n)}
-    nextid = {k: 1 for k in range(n)}
+    first = 0 if rng.random() < 0.4 else 1          # explicit id 0 is a legal id
+    nextid = {k: first for k in range(n)}
     rels = [a for a in schema['accessors'] if a['kind'] == 'rel']
     ops = []
     for _ in range(length):
@@ -155,7 +156,7 @@ def gen_history(rng, schema, length):
             i = nextid[k]
             nextid[k] += 1
             live[k].append(i)
-            xv = rng.choice([None, 1, 1, 2, 3])
+            xv = rng.choice([None, 1, 1, 2, 2, 3])
             yv = rng.choice([None, 1, 2, 2, 3])
             ops.append(['new', k, i, xv, yv])
         elif r < 0.45:
